@@ -23,6 +23,7 @@ type c04Case struct {
 	Trailing []byte `json:"trailing,omitempty"`
 	Cuts     []int  `json:"cuts,omitempty"`
 	Zero     bool   `json:"zero_reads,omitempty"`
+	EOFLast  bool   `json:"eof_with_last_bytes,omitempty"` // the frame ends the stream and its last bytes arrive together with io.EOF
 	Stream   []byte `json:"stream,omitempty"` // for *-enc: the raw stream fed to the reader
 }
 
@@ -100,7 +101,7 @@ func c04RunInner(c *c04Case) string {
 			return fmt.Sprintf("frame length %d, expected %d (padding length not as drawn?)", len(body), wantLen)
 		}
 		stream := append(append([]byte{}, body...), c.Trailing...)
-		r := &enum.ChunkReader{Data: stream, Cuts: c.Cuts, Err: io.EOF, ZeroReads: c.Zero}
+		r := &enum.ChunkReader{Data: stream, Cuts: c.Cuts, Err: io.EOF, ZeroReads: c.Zero, EOFWithLast: c.EOFLast}
 		got, err := ReadTCPRequest(r)
 		if err != nil {
 			return "read error on a valid frame: " + err.Error()
@@ -129,7 +130,7 @@ func c04RunInner(c *c04Case) string {
 			return fmt.Sprintf("frame length %d, expected %d", len(body), wantLen)
 		}
 		stream := append(append([]byte{}, body...), c.Trailing...)
-		r := &enum.ChunkReader{Data: stream, Cuts: c.Cuts, Err: io.EOF, ZeroReads: c.Zero}
+		r := &enum.ChunkReader{Data: stream, Cuts: c.Cuts, Err: io.EOF, ZeroReads: c.Zero, EOFWithLast: c.EOFLast}
 		ok, msg, err := ReadTCPResponse(r)
 		if err != nil {
 			return "read error on a valid frame: " + err.Error()
@@ -285,7 +286,7 @@ func c04Shape(c *c04Case, clause string) string {
 		}
 		return fmt.Sprintf("%s|%x|%d|%v", c.Kind, c.Stream[:n], len(c.Stream), clause == "")
 	}
-	return fmt.Sprintf("%s|%d|%d|%d|%d|%v", c.Kind, len(c.Addr), c.Pad, len(c.Trailing), len(c.Cuts), c.Zero)
+	return fmt.Sprintf("%s|%d|%d|%d|%d|%v|%v", c.Kind, len(c.Addr), c.Pad, len(c.Trailing), len(c.Cuts), c.Zero, c.EOFLast)
 }
 
 func c04Sig(c *c04Case, clause string) string {
@@ -297,10 +298,17 @@ func c04Sig(c *c04Case, clause string) string {
 		}
 		return fmt.Sprintf("%s/%s/stream=%x..(%d)", c.Kind, clause, c.Stream[:n], len(c.Stream))
 	}
-	return fmt.Sprintf("%s/%s/len=%d,pad=%d,trail=%d,cuts=%v,zero=%v", c.Kind, clause, len(c.Addr), c.Pad, len(c.Trailing), c.Cuts, c.Zero)
+	return fmt.Sprintf("%s/%s/len=%d,pad=%d,trail=%d,cuts=%v,zero=%v,eof-with-last=%v", c.Kind, clause, len(c.Addr), c.Pad, len(c.Trailing), c.Cuts, c.Zero, c.EOFLast)
 }
 
 func c04Run1(sh *evidence.Shard, p *evidence.Part, c *c04Case) {
+	if len(c.Trailing) == 0 && !c.EOFLast && c.Stream == nil {
+		// the frame is the last thing on the stream (e.g. a refused dial: response, then FIN):
+		// the same case once more with the final bytes delivered together with io.EOF
+		cc := *c
+		cc.EOFLast = true
+		c04Run1(sh, p, &cc)
+	}
 	p.Evaluations++
 	clause := c04Run(c)
 	p.Class(c04Shape(c, clause))
